@@ -100,6 +100,7 @@ def kani_eval(sid, harness):
     try:
         os.makedirs(os.path.join(scratch, "repo"))
         shutil.copytree(os.path.join(REPO, "src"), os.path.join(scratch, "repo", "src"))
+        shutil.copytree(os.path.join(REPO, "benches"), os.path.join(scratch, "repo", "benches"))
         for f in ("Cargo.toml", "Cargo.lock"):
             shutil.copy(os.path.join(REPO, f), os.path.join(scratch, "repo", f))
         rc, out = sh("patch -p1 -s -d %s -i %s" % (os.path.join(scratch, "repo"), os.path.join(d, "patch.diff")))
